@@ -1,6 +1,7 @@
 """SYM-1..4 (bookkeeping schema), EFF-3, TS-8 (count getters), API-1 (guard <=> outcome of the
 handle-consuming API), FWD-1 (forwarding trait impls)."""
 from interp import DEAD, LIVE, ALL, counter_read, alloc_root
+from expr import RCBOX
 from expr import show, mentions, is_const, mk_field, mk_deref, mk_ref, box_part, table_of, MAX
 from rules_ts import add, rem, sub, is_elem_box
 from rules_gate import short
@@ -75,6 +76,20 @@ class TableOps:
             return None
         if ev.op == "get_mut" and tb is not None and len(ev.args) >= 2:
             return add(st, ("mutslot", ev.res, tb, ev.args[1]))
+        # match map.entry(k) { Occupied(e) => *e.get_mut() += a, Vacant(e) => { e.insert(a); } }
+        if tb is None and ev.recv is not None and ev.container.rsplit("::", 1)[-1] in ("OccupiedEntry", "VacantEntry"):
+            for f in st.flags:
+                if f[0] == "entry" and f[2] is not None and sub(ev.recv, f[1]):
+                    if ev.container.endswith("OccupiedEntry") and ev.op in ("get_mut", "into_mut"):
+                        return add(st, ("slot", ev.res, f[2], f[3], ("const", "0", None), "occupied"))
+                    if ev.container.endswith("VacantEntry") and ev.op in ("insert", "insert_entry") and len(ev.args) >= 2:
+                        kind, target = link_key(f[3], st)
+                        self.sites["add"].add(ev.b)
+                        eng.obl("SYM-4", "add", ev.b)
+                        if not is_const(ev.args[1], 1):
+                            eng.violate("SYM-4", "insert-not-plus-one", "a link that was not recorded before is created with count %s instead of 1" % show(ev.args[1])[:40], ev.b, st)
+                        return add(st, ("top", "add", f[2], kind, target, ev.args[1]))
+            return None
         if tb is None:
             return None
         if ev.op == "remove" and len(ev.args) >= 2:
@@ -93,6 +108,14 @@ class TableOps:
                 eng.obl("SYM-4", "sub:reinsert", ev.b)
                 nonzero = mentions(v, lambda x: x[0] == "call" and x[2].startswith("core::num::NonZero") and x[2].endswith("::get"))
                 how = [f[3] for f in st.flags if f[0] == "subamt" and f[1] == g]
+                # `if count > n { insert(k, count - n) } else { remove(k) }`
+                if v[0] == "bin" and v[1] in ("Sub", "SubUnchecked"):
+                    cnt_, n_ = v[2], v[3]
+                    guarded = any(h[0] == "cmp" and ((h[1] == "Gt" and h[2] == cnt_ and h[3] == n_ and h[4]) or (h[1] == "Lt" and h[2] == n_ and h[3] == cnt_ and h[4])
+                                                     or (h[1] == "Le" and h[2] == cnt_ and h[3] == n_ and not h[4]) or (h[1] == "Ge" and h[2] == n_ and h[3] == cnt_ and not h[4])) for h in st.flags)
+                    if guarded:
+                        self.sites["sub"].add(ev.b)
+                        return add(st, ("top", "sub", tb, kind, target, n_))
                 if not nonzero:
                     eng.violate("SYM-4", "may-store-zero", "a link count is written back after subtraction without proof that it is non-zero (entries with count 0 keep a table non-empty forever)", ev.b, st)
                 if not how or how[0] not in ("checked_sub",) and not (how[0] == "saturating_sub" and nonzero):
@@ -159,13 +182,19 @@ class TableOps:
                         amt = v[2]
                 self.sites["add"].add(ev.b)
                 eng.obl("SYM-4", "add", ev.b)
-                if amt is None or not is_const(amt, 1) or not is_const(init, 0):
+                occupied = len(f) > 5 and f[5] == "occupied"
+                if amt is None or not is_const(amt, 1) or not (occupied or is_const(init, 0)):
                     eng.violate("SYM-4", "insert-not-plus-one", "recording a link changes its count by something other than +1 from a 0 start (%s)" % show(v)[:80], ev.b, st)
                 st = rem(st, lambda g: g == f)
                 return add(st, ("top", "add", tb, kind, target, amt))
         return None
 
     def _amount(self, st, tb, key):
+        # the lookup of this key is known to have found nothing: the removal is vacuous
+        for e, v in st.var:
+            if v == "0" and e[0] == "call" and e[2].startswith("hashbrown::HashMap") and e[2].rsplit("::", 1)[1] in ("get", "get_mut") and len(e[3]) >= 2:
+                if table_of(e[3][0]) == tb and _same_key(e[3][1], key):
+                    return ABSENT
         for f in st.flags:
             if f[0] == "subamt":
                 g = f[1]
@@ -244,8 +273,12 @@ class AdoptSchema:
             eng.violate("SYM-1" if op == "add" else "SYM-2", "no-self-handle-test", "%s does not distinguish adoption through the same handle from adoption through another handle" % self.which, ev.b, st)
             return None
         want = sorted(want, key=repr)
-        # a record that is absent needs no subtraction: any amount matches
-        ops = sorted(((o[0], o[1], o[2], o[3], one if o[4] == ABSENT else o[4]) for o in ops), key=repr)
+        # a record that is absent needs no subtraction: any amount matches; with the same handle on
+        # both sides `this` and `other` name the same object
+        def canon(bx):
+            return self.other if (same and bx == self.this) else bx
+        ops = sorted(((o[0], canon(o[1]), o[2], canon(o[3]), one if o[4] == ABSENT else o[4]) for o in ops), key=repr)
+        want = sorted(((w[0], canon(w[1]), w[2], canon(w[3]), w[4]) for w in want), key=repr)
         if ops != want:
             def fmt(o):
                 return "%s %s(%s) in table of %s by %s" % (o[0], KIND_NAMES.get(o[2], "?"), show(o[3]) if o[3] else "?", show(o[1]), show(o[4]) if o[4] else "?")
@@ -474,7 +507,7 @@ class ApiSpec:
             eng.obl("API-1", self.name + ":offset", ev.b)
             if any(f[0] == "dangling" for f in st.flags):
                 return None
-            if not steps_back_by_value_offset(ev.ptr):
+            if not steps_back_by_value_offset(ev.ptr, eng.fn.facts):
                 eng.violate("API-1", "%s:not-inverse-of-as_ptr" % self.name, "%s does not recover the allocation by stepping back exactly the offset of RcBox<T>::value (it computes %s); for payloads whose alignment changes the padding the handle points into the wrong place" % (self.name, show(ev.ptr)[:160]), ev.b, st)
         return None
 
@@ -563,9 +596,31 @@ def _strip_int_casts(e):
     return e
 
 
-def is_value_offset(d):
-    """`addr_of!((*base).value) as usize - base as usize` for some RcBox place `base`."""
+def const_is_value_offset(d, facts):
+    """A constant of the crate whose body is `offset_of!(RcBox<T>, value)`."""
+    import re
+    if facts is None or d[0] != "const" or d[1] is not None or not d[2]:
+        return False
+    name = re.sub(r"::<[^>]*>", "", d[2])
+    for path, c in facts.consts.items():
+        if path.endswith(name) or path.endswith("::" + name):
+            for blk in c["blocks"]:
+                t = blk["term"]
+                if t["k"] == "call" and t["callee"] and t["callee"]["def"] == "core::intrinsics::offset_of":
+                    targs = t["callee"].get("targs") or [{}]
+                    if targs[0].get("adt") == RCBOX and len(t["args"]) >= 2 and "int" in t["args"][1]:
+                        idx = int(t["args"][1]["int"])
+                        fields = facts.adts.get(RCBOX, {}).get("fields", [])
+                        if idx < len(fields) and fields[idx]["name"] == "value":
+                            return True
+    return False
+
+
+def is_value_offset(d, facts=None):
+    """`addr_of!((*base).value) as usize - base as usize` for some RcBox place `base`, or offset_of!(RcBox<T>, value)."""
     d = _strip_int_casts(d)
+    if const_is_value_offset(d, facts):
+        return True
     if d[0] == "unk" and "OffsetOf" in str(d[1]):
         return True
     if d[0] != "bin" or d[1] not in ("Sub", "SubUnchecked"):
@@ -584,17 +639,17 @@ def is_value_offset(d):
     return False
 
 
-def steps_back_by_value_offset(ptr):
+def steps_back_by_value_offset(ptr, facts=None):
     found = []
 
     def pred(x):
         if x[0] == "call" and x[2].rsplit("::", 1)[-1] in ("offset", "byte_offset", "wrapping_offset") and len(x[3]) == 2:
             n = x[3][1]
-            if n[0] == "un" and n[1] == "Neg" and is_value_offset(n[2]):
+            if n[0] == "un" and n[1] == "Neg" and is_value_offset(n[2], facts):
                 found.append(True)
             return True
         if x[0] == "call" and x[2].rsplit("::", 1)[-1] in ("sub", "byte_sub", "wrapping_sub", "wrapping_byte_sub") and len(x[3]) == 2:
-            if is_value_offset(x[3][1]):
+            if is_value_offset(x[3][1], facts):
                 found.append(True)
             return True
         return False
